@@ -565,14 +565,27 @@ func c06RunItems(c *core.Ctx, items []c06Item, web bool) {
 		for _, l := range lists {
 			lt = append(lt, util.Lines(l))
 		}
+		suffixMode := web && c.Rng.Intn(5) == 0
+		if suffixMode {
+			// The referring site is a tenant of a public suffix and the rules
+			// name the suffix itself: "site.com" becomes "github.io", the page is
+			// http://shop.github.io/.
+			for i := range lt {
+				lt[i] = strings.ReplaceAll(strings.ReplaceAll(lt[i], "site.com", "github.io"), "site.", "shop.")
+			}
+			c.Event("engine_requests_from_a_tenant_of_a_public_suffix", 1)
+		}
 		if web {
 			eng := urlfilter.NewEngine(util.Storage(lt...))
 			src := "http://site.com/"
+			if suffixMode {
+				src = "http://shop.github.io/"
+			}
 			hasDomain := false
 			for _, it := range perm {
 				hasDomain = hasDomain || len(it.Spec.Domains) > 0
 			}
-			if !hasDomain && c.Rng.Intn(3) == 0 {
+			if !hasDomain && !suffixMode && c.Rng.Intn(3) == 0 {
 				// The referrer as a user typed it: rules match it whatever its
 				// letter case ($domain values are compared as written, so this is
 				// only done when no rule carries one).
@@ -580,7 +593,18 @@ func c06RunItems(c *core.Ctx, items []c06Item, web bool) {
 				c.Event("engine_requests_with_capital_letters_in_the_referrer", 1)
 			}
 			req := rules.NewRequest("http://ads.com/page", src, rules.TypeDocument)
-			judge("Engine.MatchRequest", eng.MatchRequest(req).GetBasicResult())
+			if suffixMode {
+				// (the rule texts differ from those of the items: the class is
+				// judged, not the identity of the selected rule)
+				sel := eng.MatchRequest(req).GetBasicResult()
+				c.Eval(1)
+				if got := util.Class(sel); got != want {
+					c.Violation("class-mismatch:Engine.MatchRequest(referrer under a public suffix)", nil, c06Witness{Via: "Engine.MatchRequest", Rules: lt, Got: got, Reference: want},
+						"Engine.MatchRequest for a page referred by http://shop.github.io/ over lists %q: verdict %s, reference %s", lt, got, want)
+				}
+			} else {
+				judge("Engine.MatchRequest", eng.MatchRequest(req).GetBasicResult())
+			}
 			// Without a referrer the source rules play no role.
 			var only []c06Item
 			for _, it := range perm {
@@ -625,6 +649,7 @@ func init() {
 			"ALL permutations of every multiset through NewMatchingResult / GetDNSBasicRule, and every fifth permutation through Engine.MatchRequest, NetworkEngine.Match and DNSEngine.MatchRequest with a random split into 1..3 lists; " +
 			"one sampled multiset in twelve also holds two different rules whose whole texts have the same 32-bit hash (block vs exception, plain vs important); " +
 			"one web case in eight is a page referred by itself (NewRequest(u, u, TypeDocument)): which rules are on the request side and which on the referrer side is established with Match, the verdict by the reference; " +
+			"request- and referrer-side patterns with and without a five-character shortcut (the rules are spread over the lookup tables); one engine evaluation in five renames site.com to the public suffix github.io and asks from shop.github.io; " +
 			"oracle = precedence reference on specs (class in block/allow/none) plus invariants on the selected rule; non-trivial = every multiset (distinct by sorted rule texts and sides)",
 		Assumptions: []string{
 			"a referrer-level $urlblock exception suppresses every blocking rule including $important ones, as the statement says 'every blocking rule'",
